@@ -1324,6 +1324,12 @@ def _dynamic_slice(operand, start_indices, slice_sizes):
     return term('dynamic_slice', operand, tuple(start_indices), tuple(slice_sizes))
 
 
+def _dynamic_slice_in_dim(operand, start_index, slice_size, axis=0):
+    if fz(axis) != 0:
+        raise Top("dynamic_slice_in_dim along an axis other than 0")
+    return term('dynamic_slice', operand, (start_index, alg.ROWS_REST), (slice_size, alg.ROWS_REST))
+
+
 def _dynamic_update_slice(operand, update, start_indices):
     return term('dynamic_update_slice', operand, update, tuple(start_indices))
 
@@ -1342,7 +1348,11 @@ def _value_and_grad(f, argnums=0, has_aux=False, **kw):
         value = out[0] if has_aux else out
         k = fz(argnums)
         if isinstance(k, (tuple, list)):
-            wrt = tuple(fz(args[i]) for i in k)
+            # a tuple of argument numbers gives a tuple of gradients, one per argument (each the same term as for a single number)
+            for i in k:
+                if not isinstance(i, int) or i >= len(args):
+                    raise Finding(f"value_and_grad argnums={argnums!r} but the function is applied to {len(args)} positional arguments")
+            return out, tuple(Sym('grad', fz(value), fz(args[i])) for i in k)
         else:
             if not isinstance(k, int) or k >= len(args):
                 raise Finding(f"value_and_grad argnums={argnums!r} but the function is applied to {len(args)} positional arguments")
@@ -1601,7 +1611,7 @@ def make_world_externals(world_ref):
               structure=pytree.tree_structure, transpose=pytree.tree_transpose,
               flatten=pytree.tree_flatten, unflatten=pytree.tree_unflatten)
     lax = NS("jax.lax", cond=lax_cond, scan=alg.lax_scan, fori_loop=lax_fori_loop, while_loop=lax_while_loop,
-             dynamic_slice=_dynamic_slice, dynamic_update_slice=_dynamic_update_slice, select=_where,
+             dynamic_slice=_dynamic_slice, dynamic_slice_in_dim=_dynamic_slice_in_dim, dynamic_update_slice=_dynamic_update_slice, select=_where,
              stop_gradient=stop_gradient_value, top_k=_top_k,
              with_sharding_constraint=lambda x, s: x)
     random = NS("jax.random", split=_random_split, uniform=_random_uniform, choice=_random_choice,
